@@ -141,7 +141,8 @@ Definition track_local (t : tok) : bool :=
   | TNote _ _ _ _ _ _ _ _ _ | TNoteN _ _ _ _ _ _ | TRest _ _ | TLength _
   | TOctave _ | TOctaveRel _ | TOctaveOnce _ | TVelocity _ _ | TVelocityRel _
   | TQLen _ | TQLenRel _ | TTiming _ | TChannel _ | TTrackKey _ | TVoice _
-  | THarmonyBegin | THarmonyEnd _ _ _ => true
+  | THarmonyBegin | THarmonyEnd _ _ _
+  | TCC _ _ | TPitchBend _ _ | TRpnCmd _ _ _ _ => true       (* controller / bend events on the current track *)
   | _ => false
   end.
 
@@ -197,6 +198,7 @@ Proof.
   destruct t; cbn [track_local]; try discriminate; intros _; cbn [step_song];
   first
   [ solve [intros E; injection E as <-; frame_leaf]
+  | solve [unfold add_events; intros E; injection E as <-; frame_leaf]
   | solve [apply emit_note_frame]
   | solve [unfold exec_rest, exec_harmony_end, exec_voice;
            repeat match goal with
@@ -269,6 +271,7 @@ Proof.
   first
   [ solve [unfold exec_note, exec_note_n, note_number, key_flag_at; rewrite ?Hct;
            cbn [s_timebase s_use_key_shift s_key_flag s_key_shift s_set_tracks]; apply emit_note_indep; exact Hs]
+  | solve [unfold add_events; rewrite ?Hct; indep_leaf Hs]
   | solve [unfold exec_rest, exec_harmony_end, exec_voice; rewrite ?Hct;
            cbn [s_timebase s_octave_once s_v_add s_q_add s_harmony_flag s_harmony_time s_harmony_events s_set_tracks];
            repeat match goal with
@@ -453,6 +456,7 @@ Proof.
   destruct t; cbn [track_local] in Ht; try discriminate; cbn [step_song];
   first
   [ solve [hnorm_leaf F]
+  | solve [unfold add_events, cur_track; pj; hnorm_leaf F]
   | solve [unfold exec_note, exec_note_n, note_number, key_flag_at;
            cbn [s_timebase s_use_key_shift s_key_flag s_key_shift s_tracks s_cur s_set_harmony cur_track];
            apply emit_note_hnorm; exact F]
